@@ -218,6 +218,16 @@ def _native_setup(mod, job, ghost, env):
         failed = {1: g.fail_version, 2: g.fail_build, 3: g.fail_upload}.get(code, False)
         # a failing tool exits with a positive status or is killed by a signal (negative returncode): both are failures
         rc = [1, -9, 2, -15, 127][(len(g.E) + len(str(args))) % 5]
+        if failed and code == 1:
+            # an unusable PlatformIO shows up in several ways: not found, not executable, not a program, non-zero exit
+            _PIO_FAILURE_KIND[0] += 1
+            kind = _PIO_FAILURE_KIND[0] % 4
+            if kind == 0:
+                raise FileNotFoundError(2, "No such file or directory", "pio")
+            if kind == 1:
+                raise PermissionError(13, "Permission denied", "pio")
+            if kind == 2:
+                raise OSError(8, "Exec format error", "pio")
         if failed and check:
             raise subprocess.CalledProcessError(rc, args)
         return subprocess.CompletedProcess(args, rc if failed else 0)
@@ -304,6 +314,9 @@ def _spec_env():
 
 
 NATIVE_HOOKS = {"prophecy": ("next_tmp", "main_path", "main_text"), "setup": _native_setup, "teardown": _native_teardown, "spec_env": _spec_env()}
+
+
+_PIO_FAILURE_KIND = [0]
 
 
 def native_samples(reg, rnd, n):
